@@ -4,9 +4,9 @@
 package c16
 
 import (
-	"encoding/pem"
 	"context"
 	"crypto/tls"
+	"encoding/pem"
 	"fmt"
 	"net/url"
 	"strings"
@@ -17,6 +17,7 @@ import (
 	k8sruntime "k8s.io/apimachinery/pkg/runtime"
 	"k8s.io/apiserver/pkg/admission"
 	clienttesting "k8s.io/client-go/testing"
+	"k8s.io/client-go/tools/cache"
 	certutil "k8s.io/client-go/util/cert"
 	"pgregory.net/rapid"
 
@@ -41,7 +42,7 @@ import (
 func TestMain(m *testing.M) {
 	stats.Property("C16")
 	stats.Assume(
-		"validation = ValidateUpstreamCluster (what the admission plugin calls) plus the plugin's feature-gate annotation check; conflict checks against other clusters are C10's subject",
+		"validation = ValidateUpstreamCluster (what the admission plugin calls) plus the plugin's feature-gate annotation check; that colliding names are refused is C10's subject, that what admission accepts next to other stored clusters can be applied is checked here (accepted-next-to-other-clusters)",
 		"'can be applied' = CreateClusterInfo, ClusterInfo.Sync over a previously applied accepted object, a fresh controller's sync (no requeue, the cluster resolves afterwards), a smoke run (MatchAttributes on probes, Pop, TryAcquire/Release on every schema), the limiter server's UpstreamConditionHandler, and for schemas with a global strategy one reconcile round of the gateway-side remote limiter against an echoing stub; an error, a requeue or a panic in any of them is a violation",
 		"'objects that would break them are rejected' is additionally checked by a must-reject predicate written from the classes the statement lists (unparseable endpoint URL, mixed schemes, unusable serving key/cert/CA, policy referring to unknown endpoint or schema, flow-control configuration that is contradictory / incomplete / out of range)",
 		"Go runtime, pgregory.net/rapid v1.3.0",
@@ -410,16 +411,18 @@ func mustReject(c *proxyv1alpha1.UpstreamCluster) []string {
 	return why
 }
 
-var plugin = func() admission.ValidationInterface {
+// plugin is the real admission plugin; pluginStore is the store of its informer cache (empty unless a sub-check fills it)
+var plugin, pluginStore = func() (admission.ValidationInterface, cache.Indexer) {
 	p := upstreamclusteradmission.NewUpstreamClusterPlugin()
 	f := gwinformers.NewSharedInformerFactory(gatewayfake.NewSimpleClientset(), 0)
 	p.(interface {
 		SetGatewayResourceInformerFactory(gwinformers.SharedInformerFactory)
 	}).SetGatewayResourceInformerFactory(f)
+	idx := f.Proxy().V1alpha1().UpstreamClusters().Informer().GetIndexer()
 	stop := make(chan struct{})
 	f.Start(stop)
 	f.WaitForCacheSync(stop)
-	return p.(admission.ValidationInterface)
+	return p.(admission.ValidationInterface), idx
 }()
 
 var objInterfaces = admission.NewObjectInterfacesFromScheme(scheme.Scheme)
